@@ -53,7 +53,9 @@ NatSet(T, lax) == RangeOf(NatAxes(T, G1(lax)))
 NTs(e) == [i \in 1..Len(e.ts) |-> MaybeConj(reg[e.ts[i]], e.conjs[i])]
 SwapPairs(T, e) == [j \in 1..Len(e.pairs) |-> <<NatSet(T, e.pairs[j][1]), NatSet(T, e.pairs[j][2])>>]
 
+BlkOps(e) == [i \in 1..Len(e.ts) |-> reg[e.ts[i]]]
 Pre(e) == CASE e.op = "lincomb"   -> SameShape(A(e), B(e))
+            [] e.op = "block"     -> PreBlock(BlkOps(e), e.pos)
             [] e.op = "add3"      -> SameShape(A(e), B(e)) /\ SameShape(A(e), reg[e.c])
             [] e.op \in {"scale", "conj", "conj_blocks", "flip_signature", "copy", "consume_transpose"} -> TRUE
             [] e.op = "flip_charges" -> SetOf(e.axes) \subseteq 1..LRank(A(e)) /\ ~A(e).dg /\ \A k \in SetOf(e.axes) : A(e).grp[k] = Leaf
@@ -71,6 +73,7 @@ Pre(e) == CASE e.op = "lincomb"   -> SameShape(A(e), B(e))
             [] e.op = "ncon"      -> PreNcon(NTs(e), e.inds)
             [] e.op = "swap_gate" -> \A j \in 1..Len(e.pairs) : RangeOf(G1(e.pairs[j][1])) \cup RangeOf(G1(e.pairs[j][2])) \subseteq 1..LRank(A(e))
 Ref(e) == CASE e.op = "lincomb"   -> LinComb(A(e), Amp(e, 1), B(e), Amp(e, 2))
+            [] e.op = "block"     -> Block(BlkOps(e), e.pos)
             [] e.op = "scale"     -> Scale(A(e), Amp(e, 1))
             [] e.op = "conj"      -> Conj(A(e))
             [] e.op = "conj_blocks" -> ConjBlocks(A(e))
@@ -153,6 +156,7 @@ MustRejectHidden(e) == CASE e.op = "lincomb" -> SameShape(A(e), B(e)) /\ HiddenD
                          [] OTHER -> FALSE
 (* inputs on which the outcome is unspecified (6.4 of DESIGN.md): a charge sector with two different dimensions in the operands *)
 Unspec(e) == CASE e.op = "lincomb" -> SameShape(A(e), B(e)) /\ ~DimsOKSame(A(e), B(e))
+               [] e.op = "block" -> PreBlock(BlkOps(e), e.pos) /\ ~BlockDimsOK(BlkOps(e), e.pos)
                [] e.op = "add3" -> SameShape(A(e), B(e)) /\ SameShape(A(e), reg[e.c]) /\ ~(DimsOKSame(A(e), B(e)) /\ DimsOKSame(A(e), reg[e.c]) /\ DimsOKSame(B(e), reg[e.c]))
                [] e.op = "vdot" /\ A(e).dg # B(e).dg -> TRUE        \* mixing a diagonal with a non-diagonal operand in vdot: unsupported input, unspecified
                [] e.op \in {"tensordot", "vdot"} -> ~DimsOKDot(A(e), B(e), IF e.op = "vdot" THEN [k \in 1..LRank(A(e)) |-> k] ELSE G1(e.la),
